@@ -1024,3 +1024,589 @@ Lemma new_definition_appended kd k p i :
 Proof.
   intros Hr Hni. rewrite (defs_add_instruction_routed kd k p i Hr). now apply ins_notin.
 Qed.
+
+(** * C10: the used-qubit cache *)
+
+Definition Inv (p : program) : Prop := seteq (used p) (listing_qubits (to_instructions p)).
+
+(** every instruction of the program reports all of its qubits through [get_qubits] *)
+Definition Counted (p : program) : Prop :=
+  Forall (fun i => incl (qubits_of i) (gq i)) (to_instructions p).
+
+Definition Good (p : program) : Prop := WF p /\ InvG p /\ Counted p.
+
+Lemma gq_incl_qubits_of i : incl (gq i) (qubits_of i).
+Proof. destruct i; cbn [gq qubits_of]; intros x Hx; (exact Hx || contradiction). Qed.
+
+Lemma in_listing_gq x l : In x (listing_gq l) <-> exists i, In i l /\ In x (gq i).
+Proof. unfold listing_gq. apply in_flat_map. Qed.
+
+Lemma in_listing_qubits x l : In x (listing_qubits l) <-> exists i, In i l /\ In x (qubits_of i).
+Proof. unfold listing_qubits. apply in_flat_map. Qed.
+
+Lemma counted_gq_qubits l :
+  Forall (fun i => incl (qubits_of i) (gq i)) l -> seteq (listing_gq l) (listing_qubits l).
+Proof.
+  intros Hf x. rewrite in_listing_gq, in_listing_qubits. rewrite Forall_forall in Hf.
+  split; intros [i [Hi Hx]]; exists i; split; auto.
+  - now apply gq_incl_qubits_of.
+  - now apply Hf.
+Qed.
+
+Lemma Good_Inv p : Good p -> Inv p.
+Proof.
+  intros [_ [Hi Hc]]. unfold Inv. eapply seteq_trans; [exact Hi | now apply counted_gq_qubits].
+Qed.
+
+Lemma listing_gq_app a b : listing_gq (a ++ b) = listing_gq a ++ listing_gq b.
+Proof. unfold listing_gq. apply flat_map_app. Qed.
+
+(** membership in the listing *)
+Lemma in_to_instructions j p :
+  In j (to_instructions p) <-> (exists kd, In j (vals (defs kd p))) \/ In j (body p).
+Proof.
+  rewrite to_instructions_alt, in_app_iff, in_flat_map. split.
+  - intros [[kd [_ H]]|H]; [left; now exists kd | now right].
+  - intros [[kd H]|H]; [left; exists kd; split; [apply in_all_kinds | exact H] | now right].
+Qed.
+
+Lemma in_vals j (l : alist) : In j (vals l) <-> exists k, In (k, j) l.
+Proof.
+  unfold vals. rewrite in_map_iff. split.
+  - intros [[k v] [<- H]]. now exists k.
+  - intros [k H]. now exists (k, j).
+Qed.
+
+Lemma In_ins x k v l : In x (ins k v l) -> x = (k, v) \/ In x l.
+Proof.
+  induction l as [|[k' v'] t IH]; cbn [ins In].
+  - intros [H|[]]; auto.
+  - destruct (N.eqb k k'); cbn [In]; intros [H|H]; auto.
+    destruct (IH H); auto.
+Qed.
+
+Lemma In_ins_self k v l : In (k, v) (ins k v l).
+Proof.
+  induction l as [|[k' v'] t IH]; cbn [ins In]; [now left|].
+  destruct (N.eqb k k'); cbn [In]; auto.
+Qed.
+
+Lemma In_ins_other k v k' v' l : k' <> k -> In (k', v') l -> In (k', v') (ins k v l).
+Proof.
+  intros Hne. induction l as [|[k0 v0] t IH]; cbn [ins In]; [tauto|].
+  destruct (N.eqb_spec k k0) as [->|Hne0]; cbn [In].
+  - intros [H|H]; [inversion H; congruence | now right].
+  - intros [H|H]; [now left | right; now apply IH].
+Qed.
+
+Lemma flat_map_nil_inv {A B} (f : A -> list B) l : flat_map f l = [] -> forall x, In x l -> f x = [].
+Proof.
+  induction l as [|y t IH]; cbn [flat_map]; intros H x Hx; [contradiction|].
+  apply app_eq_nil in H. destruct H as [H1 H2]. destruct Hx as [->|Hx]; auto.
+Qed.
+
+Lemma flat_map_nil_intro {A B} (f : A -> list B) l : (forall x, In x l -> f x = []) -> flat_map f l = [].
+Proof.
+  induction l as [|y t IH]; cbn [flat_map]; intros H; [reflexivity|].
+  rewrite (H y) by now left. cbn [app]. apply IH. intros x Hx. apply H. now right.
+Qed.
+
+(** ** One [add_instruction] *)
+
+Lemma to_instructions_set_used u p : to_instructions (set_used u p) = to_instructions p.
+Proof. reflexivity. Qed.
+
+Lemma in_listing_add j p i :
+  In j (to_instructions (add_instruction p i)) -> j = i \/ In j (to_instructions p).
+Proof.
+  rewrite !in_to_instructions. intros [[kd H]|H].
+  - rewrite defs_add_instruction in H. unfold sel in H. cbn [flat_map] in H. rewrite app_nil_r in H.
+    destruct (route i) as [[kd' k]|] eqn:Hr.
+    + destruct (kind_eqb kd' kd).
+      * cbn [extend fold_left fst snd] in H. apply in_vals in H. destruct H as [k0 H].
+        apply In_ins in H. destruct H as [H|H]; [inversion H; now left|].
+        right. left. exists kd. apply in_vals. now exists k0.
+      * right. left. now exists kd.
+    + right. left. now exists kd.
+  - rewrite body_add_instruction in H. apply in_app_or in H. destruct H as [H|H].
+    + right. now right.
+    + cbn [filter] in H. destruct (is_body i); [|contradiction]. destruct H as [H|[]]. now left.
+Qed.
+
+Lemma stale_add_nil p i kd k old :
+  stale_add p i = [] -> route i = Some (kd, k) -> lookup k (defs kd p) = Some old ->
+  incl (gq old) (gq i).
+Proof.
+  unfold stale_add. intros H Hr Hl. rewrite Hr, Hl in H.
+  destruct (subsetb (gq old) (gq i)) eqn:E; [now apply subsetb_incl | discriminate].
+Qed.
+
+Lemma GL_add_instruction p i :
+  WF p -> stale_add p i = [] ->
+  seteq (listing_gq (to_instructions (add_instruction p i))) (listing_gq (to_instructions p) ++ gq i).
+Proof.
+  intros Hp Hs x. rewrite in_app_iff, !in_listing_gq. split.
+  - intros [j [Hj Hx]]. apply in_listing_add in Hj. destruct Hj as [->|Hj]; [now right|].
+    left. now exists j.
+  - intros [[j [Hj Hx]]|Hx].
+    + rewrite in_to_instructions in Hj. destruct Hj as [[kd Hj]|Hj].
+      * apply in_vals in Hj. destruct Hj as [k Hj].
+        destruct (route i) as [[kd' k']|] eqn:Hr.
+        -- destruct (kind_eqb_spec kd' kd) as [->|Hne].
+           ++ destruct (N.eq_dec k k') as [->|Hk].
+              ** exists i. split.
+                 --- apply in_to_instructions. left. exists kd.
+                     rewrite (defs_add_instruction_routed kd k' p i Hr). apply in_vals. exists k'.
+                     apply In_ins_self.
+                 --- apply (stale_add_nil p i kd k' j Hs Hr); [|exact Hx].
+                     apply In_lookup; [apply Hp | exact Hj].
+              ** exists j. split; [|exact Hx]. apply in_to_instructions. left. exists kd.
+                 rewrite (defs_add_instruction_routed kd k' p i Hr). apply in_vals. exists k.
+                 now apply In_ins_other.
+           ++ exists j. split; [|exact Hx]. apply in_to_instructions. left. exists kd.
+              rewrite defs_add_instruction. unfold sel. cbn [flat_map]. rewrite Hr.
+              destruct (kind_eqb_spec kd' kd); [contradiction|]. cbn [app extend fold_left].
+              apply in_vals. now exists k.
+        -- exists j. split; [|exact Hx]. apply in_to_instructions. left. exists kd.
+           rewrite defs_add_instruction. unfold sel. cbn [flat_map]. rewrite Hr.
+           cbn [app extend fold_left]. apply in_vals. now exists k.
+      * exists j. split; [|exact Hx]. apply in_to_instructions. right.
+        rewrite body_add_instruction. apply in_or_app. now left.
+    + exists i. split; [|exact Hx]. apply in_to_instructions.
+      destruct (route i) as [[kd k]|] eqn:Hr.
+      * left. exists kd. rewrite (defs_add_instruction_routed kd k p i Hr). apply in_vals. exists k.
+        apply In_ins_self.
+      * right. rewrite body_add_instruction. apply in_or_app. right. cbn [filter].
+        unfold is_body. rewrite Hr. now left.
+Qed.
+
+Lemma uncounted_nil i : uncounted i = [] -> incl (qubits_of i) (gq i).
+Proof.
+  unfold uncounted. destruct (subsetb (qubits_of i) (gq i)) eqn:E; [intros _; now apply subsetb_incl|].
+  destruct i; discriminate.
+Qed.
+
+Lemma Counted_add_instruction p i : Counted p -> uncounted i = [] -> Counted (add_instruction p i).
+Proof.
+  unfold Counted. rewrite !Forall_forall. intros Hc Hu j Hj. apply in_listing_add in Hj.
+  destruct Hj as [->|Hj]; [now apply uncounted_nil | now apply Hc].
+Qed.
+
+Lemma Good_add_instruction p i :
+  Good p -> uncounted i = [] -> stale_add p i = [] -> Good (add_instruction p i).
+Proof.
+  intros [Hw [Hi Hc]] Hu Hs. split; [now apply WF_add_instruction|]. split; [|now apply Counted_add_instruction].
+  unfold InvG. rewrite used_add_instruction. eapply seteq_trans.
+  - apply seteq_app; [exact Hi | apply seteq_refl].
+  - apply seteq_sym. now apply GL_add_instruction.
+Qed.
+
+Lemma Good_add_instructions is : forall p,
+  Good p -> hits_adds p is = [] -> Good (add_instructions p is).
+Proof.
+  induction is as [|i t IH]; intros p Hg Hh; [exact Hg|].
+  cbn [hits_adds] in Hh. apply app_eq_nil in Hh. destruct Hh as [Hu Hh].
+  apply app_eq_nil in Hh. destruct Hh as [Hs Hh].
+  change (add_instructions p (i :: t)) with (add_instructions (add_instruction p i) t).
+  apply IH; [now apply Good_add_instruction | exact Hh].
+Qed.
+
+Lemma Good_empty : Good empty.
+Proof.
+  split; [apply WF_empty|]. split; [intros x; reflexivity | constructor].
+Qed.
+
+(** ** Concatenation *)
+
+Lemma In_merge x a b : In x (merge a b) -> In x a \/ In x b.
+Proof.
+  rewrite merge_unfold, in_app_iff. intros [H|H].
+  - apply in_map_iff in H. destruct H as [[k v] [<- Hin]]. unfold mergeF. cbn [fst snd].
+    destruct (lookup k b) as [v'|] eqn:E; [right; now apply lookup_In | now left].
+  - right. apply filter_In in H. tauto.
+Qed.
+
+Lemma in_listing_add_assign j a b :
+  WF a -> WF b -> In j (to_instructions (add a b)) -> In j (to_instructions a) \/ In j (to_instructions b).
+Proof.
+  intros Ha Hb. rewrite !in_to_instructions. intros [[kd H]|H].
+  - rewrite defs_add in H by assumption. apply in_vals in H. destruct H as [k H].
+    apply In_merge in H. destruct H as [H|H]; [left|right]; left; exists kd; apply in_vals; now exists k.
+  - rewrite body_add in H. apply in_app_or in H. destruct H as [H|H]; [left|right]; now right.
+Qed.
+
+Lemma stale_concat_nil a b kd k old v :
+  stale_concat a b = [] -> In (k, v) (defs kd b) -> lookup k (defs kd a) = Some old ->
+  incl (gq old) (gq v).
+Proof.
+  unfold stale_concat. intros H Hin Hl.
+  pose proof (flat_map_nil_inv _ _ H kd (in_all_kinds kd)) as H1. cbn beta in H1.
+  pose proof (flat_map_nil_inv _ _ H1 (k, v) Hin) as H2. cbn [fst snd] in H2. rewrite Hl in H2.
+  destruct (subsetb (gq old) (gq v)) eqn:E; [now apply subsetb_incl | discriminate].
+Qed.
+
+Lemma GL_add a b :
+  WF a -> WF b -> stale_concat a b = [] ->
+  seteq (listing_gq (to_instructions (add a b)))
+        (listing_gq (to_instructions a) ++ listing_gq (to_instructions b)).
+Proof.
+  intros Ha Hb Hs x. rewrite in_app_iff, !in_listing_gq. split.
+  - intros [j [Hj Hx]]. apply in_listing_add_assign in Hj; try assumption.
+    destruct Hj as [Hj|Hj]; [left|right]; now exists j.
+  - intros [[j [Hj Hx]]|[j [Hj Hx]]].
+    + rewrite in_to_instructions in Hj. destruct Hj as [[kd Hj]|Hj].
+      * apply in_vals in Hj. destruct Hj as [k Hj].
+        assert (Hla : lookup k (defs kd a) = Some j) by (apply In_lookup; [apply Ha | exact Hj]).
+        destruct (lookup k (defs kd b)) as [v'|] eqn:Elb.
+        -- exists v'. split.
+           ++ apply in_to_instructions. left. exists kd. rewrite defs_add by assumption.
+              apply in_vals. exists k. apply lookup_In. rewrite lookup_merge. now rewrite Elb.
+           ++ apply (stale_concat_nil a b kd k j v' Hs); [now apply lookup_In | exact Hla | exact Hx].
+        -- exists j. split; [|exact Hx]. apply in_to_instructions. left. exists kd.
+           rewrite defs_add by assumption. apply in_vals. exists k. apply lookup_In.
+           rewrite lookup_merge. now rewrite Elb.
+      * exists j. split; [|exact Hx]. apply in_to_instructions. right. rewrite body_add.
+        apply in_or_app. now left.
+    + rewrite in_to_instructions in Hj. destruct Hj as [[kd Hj]|Hj].
+      * apply in_vals in Hj. destruct Hj as [k Hj].
+        assert (Hlb : lookup k (defs kd b) = Some j) by (apply In_lookup; [apply Hb | exact Hj]).
+        exists j. split; [|exact Hx]. apply in_to_instructions. left. exists kd.
+        rewrite defs_add by assumption. apply in_vals. exists k. apply lookup_In.
+        rewrite lookup_merge. now rewrite Hlb.
+      * exists j. split; [|exact Hx]. apply in_to_instructions. right. rewrite body_add.
+        apply in_or_app. now right.
+Qed.
+
+Lemma Good_add a b : Good a -> Good b -> stale_concat a b = [] -> Good (add a b).
+Proof.
+  intros [Hwa [Hia Hca]] [Hwb [Hib Hcb]] Hs. split; [now apply WF_add|]. split.
+  - unfold InvG. rewrite used_add. eapply seteq_trans.
+    + apply seteq_app; [exact Hia | exact Hib].
+    + apply seteq_sym. now apply GL_add.
+  - unfold Counted in *. rewrite Forall_forall in *. intros j Hj.
+    apply in_listing_add_assign in Hj; try assumption. destruct Hj; auto.
+Qed.
+
+Lemma subsetb_refl l : subsetb l l = true.
+Proof. apply subsetb_incl. apply incl_refl. Qed.
+
+Lemma stale_concat_self p : WF p -> stale_concat p p = [].
+Proof.
+  intros Hp. unfold stale_concat. apply flat_map_nil_intro. intros kd _.
+  apply flat_map_nil_intro. intros [k v] Hin. cbn [fst snd].
+  rewrite (In_lookup k v (defs kd p)); [now rewrite subsetb_refl | apply Hp | exact Hin].
+Qed.
+
+(** ** Cache reset ([clone_without_body_instructions] and the inline copies of it) *)
+
+Lemma defs_clone kd p : defs kd (clone_without_body p) = defs kd p.
+Proof. unfold clone_without_body. now rewrite defs_mk. Qed.
+
+Lemma to_instructions_clone p : to_instructions (clone_without_body p) = def_instrs p.
+Proof.
+  rewrite to_instructions_alt. unfold clone_without_body at 2. rewrite body_mk, app_nil_r.
+  unfold def_instrs. apply flat_map_ext_in. intros kd _. now rewrite defs_clone.
+Qed.
+
+Lemma def_instrs_clone p : def_instrs (clone_without_body p) = def_instrs p.
+Proof. unfold def_instrs. apply flat_map_ext_in. intros kd _. now rewrite defs_clone. Qed.
+
+Lemma to_instructions_defs_body p : to_instructions p = def_instrs p ++ body p.
+Proof. apply to_instructions_alt. Qed.
+
+Lemma WF_clone p : WF p -> WF (clone_without_body p).
+Proof. intros [Hd _]. apply WF_mk; [exact Hd | constructor]. Qed.
+
+Lemma Counted_sub p q :
+  (forall j, In j (to_instructions q) -> In j (to_instructions p)) -> Counted p -> Counted q.
+Proof. unfold Counted. rewrite !Forall_forall. intros Hs Hc j Hj. apply Hc. now apply Hs. Qed.
+
+Lemma Counted_clone p : Counted p -> Counted (clone_without_body p).
+Proof.
+  apply Counted_sub. intros j. rewrite to_instructions_clone, to_instructions_defs_body.
+  intros H. apply in_or_app. now left.
+Qed.
+
+Lemma reset_hit_nil p : reset_hit p = [] -> listing_gq (def_instrs p) = [].
+Proof. unfold reset_hit. destruct (listing_gq (def_instrs p)); [reflexivity | discriminate]. Qed.
+
+Lemma Good_clone p :
+  WF p -> Counted p -> reset_hit (clone_without_body p) = [] -> Good (clone_without_body p).
+Proof.
+  intros Hw Hc Hr. split; [now apply WF_clone|]. split; [|now apply Counted_clone].
+  unfold InvG. rewrite to_instructions_clone. apply reset_hit_nil in Hr.
+  rewrite def_instrs_clone in Hr. rewrite Hr. intros x. reflexivity.
+Qed.
+
+(** ** [set_defs] with a sub-list *)
+
+Lemma wf_alist_filter kd (f : N * instr -> bool) l : wf_alist kd l -> wf_alist kd (filter f l).
+Proof.
+  intros [Hnd Hf]. split.
+  - unfold keys. clear Hf. induction l as [|[k v] t IH]; cbn [filter map]; [constructor|].
+    cbn [keys map fst] in Hnd. inversion Hnd as [|? ? Hni Hnd']; subst.
+    destruct (f (k, v)); cbn [map fst]; [|now apply IH]. constructor; [|now apply IH].
+    intros H. apply Hni. apply in_map_iff in H. destruct H as [[k' v'] [E H]]. cbn [fst] in E. subst.
+    apply filter_In in H. apply In_keys with v'. tauto.
+  - rewrite Forall_forall in *. intros x Hx. apply filter_In in Hx. now apply Hf.
+Qed.
+
+Lemma WF_set_defs kd l p : WF p -> wf_alist kd l -> WF (set_defs kd l p).
+Proof.
+  intros [Hd Hb] Hl. split; [|exact Hb]. intros kd'. rewrite defs_set_defs.
+  destruct (kind_eqb_spec kd' kd) as [->|_]; [exact Hl | apply Hd].
+Qed.
+
+Lemma in_listing_set_defs_sub kd l p j :
+  (forall x, In x l -> In x (defs kd p)) ->
+  In j (to_instructions (set_defs kd l p)) -> In j (to_instructions p).
+Proof.
+  intros Hs. rewrite !in_to_instructions. intros [[kd' H]|H]; [|now right].
+  left. rewrite defs_set_defs in H. destruct (kind_eqb_spec kd' kd) as [E|_]; [subst kd'|now exists kd'].
+  exists kd. apply in_vals in H. destruct H as [k H]. apply in_vals. exists k. now apply Hs.
+Qed.
+
+Lemma keep_sub ks l x : In x (keep ks l) -> In x l.
+Proof. unfold keep. intros H. apply filter_In in H. tauto. Qed.
+
+(** ** Placeholder resolution *)
+
+Lemma route_resolve_instr r i : route (resolve_instr r i) = route i.
+Proof. destruct i; reflexivity. Qed.
+
+Lemma counted_resolve_instr r i :
+  incl (qubits_of i) (gq i) -> incl (qubits_of (resolve_instr r i)) (gq (resolve_instr r i)).
+Proof. destruct i; cbn [resolve_instr]; auto. cbn [qubits_of gq]. intros _. apply incl_refl. Qed.
+
+Lemma Good_resolve p : Good p -> Good (resolve_placeholders p).
+Proof.
+  intros [[Hd Hb] [_ Hc]]. unfold resolve_placeholders, rebuild_used.
+  set (r := resolver p). set (p1 := set_body (map (resolve_instr r) (body p)) p).
+  assert (Hw1 : WF p1).
+  { split; [intros kd; unfold p1; rewrite defs_set_body; apply Hd|].
+    unfold p1. cbn [set_body body mk]. rewrite Forall_forall in *. intros j Hj.
+    apply in_map_iff in Hj. destruct Hj as [i [<- Hi]]. rewrite route_resolve_instr. now apply Hb. }
+  split; [|split].
+  - split; [intros kd; rewrite defs_set_used; apply Hw1 | apply Hw1].
+  - unfold InvG. rewrite to_instructions_set_used. cbn [set_used used mk]. apply seteq_refl.
+  - unfold Counted in *. rewrite to_instructions_set_used. rewrite Forall_forall in *. intros j Hj.
+    rewrite in_to_instructions in Hj. destruct Hj as [[kd Hj]|Hj].
+    + apply Hc. apply in_to_instructions. left. exists kd. unfold p1 in Hj. now rewrite defs_set_body in Hj.
+    + unfold p1 in Hj. cbn [set_body body mk] in Hj. apply in_map_iff in Hj.
+      destruct Hj as [i [<- Hi]]. apply counted_resolve_instr. apply Hc. apply in_to_instructions. now right.
+Qed.
+
+(** ** Round trips *)
+
+Lemma Good_roundtrip p : Good p -> Good (from_instructions (to_instructions p)).
+Proof.
+  intros [Hw [_ Hc]]. split; [apply WF_from_instructions|]. split.
+  - unfold InvG. rewrite used_roundtrip, listing_roundtrip by exact Hw. apply seteq_refl.
+  - unfold Counted. now rewrite listing_roundtrip.
+Qed.
+
+(** ** Expansion-like operations *)
+
+Lemma hits_adds_uncounted p is : hits_adds p is = [] -> forall i, In i is -> uncounted i = [].
+Proof.
+  revert p. induction is as [|i t IH]; intros p Hh j Hj; [contradiction|].
+  cbn [hits_adds] in Hh. apply app_eq_nil in Hh. destruct Hh as [Hu Hh].
+  apply app_eq_nil in Hh. destruct Hh as [_ Hh]. destruct Hj as [->|Hj]; [exact Hu|].
+  now apply (IH (add_instruction p i)).
+Qed.
+
+Lemma Counted_add_instructions is : forall p,
+  Counted p -> (forall i, In i is -> uncounted i = []) -> Counted (add_instructions p is).
+Proof.
+  induction is as [|i t IH]; intros p Hc Hu; [exact Hc|].
+  change (add_instructions p (i :: t)) with (add_instructions (add_instruction p i) t).
+  apply IH; [apply Counted_add_instruction; [exact Hc | apply Hu; now left]|].
+  intros j Hj. apply Hu. now right.
+Qed.
+
+Lemma Good_expand_calibrations p out :
+  Good p -> reset_hit (clone_without_body p) = [] -> hits_adds (clone_without_body p) out = [] ->
+  Good (expand_calibrations p out).
+Proof.
+  intros [Hw [_ Hc]] Hr Hh. unfold expand_calibrations. apply Good_add_instructions; [|exact Hh].
+  now apply Good_clone.
+Qed.
+
+Lemma Good_expand_sequences p kg out :
+  Good p ->
+  reset_hit (clone_without_body (set_defs KGate (keep kg (gates p)) p)) = [] ->
+  hits_adds (clone_without_body (set_defs KGate (keep kg (gates p)) p)) out = [] ->
+  Good (expand_sequences p kg out).
+Proof.
+  intros [Hw [_ Hc]] Hr Hh. unfold expand_sequences. apply Good_add_instructions; [|exact Hh].
+  apply Good_clone; [| |exact Hr].
+  - apply WF_set_defs; [exact Hw|]. apply wf_alist_filter. apply (proj1 Hw KGate).
+  - eapply Counted_sub; [|exact Hc]. intros j. apply in_listing_set_defs_sub. intros x. apply keep_sub.
+Qed.
+
+Lemma gq_nil_of_kind i kd k : route i = Some (kd, k) -> kd <> KCal -> kd <> KMCal -> gq i = [].
+Proof. destruct i; cbn [route gq]; intros [= <- <-] H1 H2; try reflexivity; congruence. Qed.
+
+Lemma GL_no_cal s :
+  WF s -> defs KCal s = [] -> defs KMCal s = [] ->
+  listing_gq (to_instructions s) = listing_gq (body s).
+Proof.
+  intros [Hd _] H1 H2. rewrite to_instructions_defs_body, listing_gq_app.
+  replace (listing_gq (def_instrs s)) with (@nil N); [reflexivity|]. symmetry.
+  unfold listing_gq, def_instrs. apply flat_map_nil_intro. intros j Hj.
+  apply in_flat_map in Hj. destruct Hj as [kd [_ Hj]]. apply in_vals in Hj. destruct Hj as [k Hj].
+  destruct (Hd kd) as [_ Hf]. rewrite Forall_forall in Hf. specialize (Hf (k, j) Hj). cbn [fst snd] in Hf.
+  apply (gq_nil_of_kind j kd k Hf).
+  - intros E. subst kd. rewrite H1 in Hj. contradiction.
+  - intros E. subst kd. rewrite H2 in Hj. contradiction.
+Qed.
+
+Lemma existsb_false_forall {A} (f : A -> bool) l : existsb f l = false -> forall x, In x l -> f x = false.
+Proof.
+  intros H x Hx. destruct (f x) eqn:E; [|reflexivity].
+  assert (existsb f l = true) by (apply existsb_exists; now exists x). congruence.
+Qed.
+
+Lemma gq_body_only out :
+  (forall i, In i out -> (negb (is_body i) && negb (match gq i with [] => true | _ => false end)) = false) ->
+  seteq (listing_gq out) (listing_gq (filter is_body out)).
+Proof.
+  intros H x. rewrite !in_listing_gq. split.
+  - intros [i [Hi Hx]]. exists i. split; [|exact Hx]. apply filter_In. split; [exact Hi|].
+    specialize (H i Hi). destruct (is_body i); [reflexivity|]. cbn [negb andb] in H.
+    destruct (gq i); [contradiction | discriminate].
+  - intros [i [Hi Hx]]. apply filter_In in Hi. exists i. tauto.
+Qed.
+
+Lemma Good_simplify p ke kf kw out :
+  Good p -> hits_adds (clone_without_body p) out = [] ->
+  existsb (fun i => negb (is_body i) && negb (match gq i with [] => true | _ => false end)) out = false ->
+  Good (simplify p ke kf kw out).
+Proof.
+  intros [Hw [_ Hc]] Hh Hx. unfold simplify.
+  set (e0 := expand_calibrations p out).
+  set (e1 := set_defs KCal [] (set_defs KMCal [] e0)).
+  set (e2 := set_defs KFrame (keep kf (frames p)) e1).
+  set (e3 := set_defs KWave (keep kw (waveforms e2)) e2).
+  set (s := set_defs KExtern (keep ke (externs e3)) e3).
+  assert (Hw0 : WF e0) by (apply WF_add_instructions; now apply WF_clone).
+  assert (Hw1 : WF e1) by (repeat apply WF_set_defs; try apply wf_alist_nil; exact Hw0).
+  assert (Hw2 : WF e2) by (apply WF_set_defs; [exact Hw1 | apply wf_alist_filter; apply (proj1 Hw KFrame)]).
+  assert (Hw3 : WF e3) by (apply WF_set_defs; [exact Hw2 | apply wf_alist_filter; apply (proj1 Hw2 KWave)]).
+  assert (Hws : WF s) by (apply WF_set_defs; [exact Hw3 | apply wf_alist_filter; apply (proj1 Hw3 KExtern)]).
+  assert (Hc0 : Counted e0).
+  { apply Counted_add_instructions; [now apply Counted_clone | now apply (hits_adds_uncounted _ _ Hh)]. }
+  split; [exact Hws|]. split.
+  - unfold InvG. rewrite GL_no_cal; [|exact Hws|reflexivity|reflexivity].
+    change (body s) with (body e0). change (used s) with (used e0).
+    unfold e0, expand_calibrations. rewrite used_add_instructions, body_add_instructions.
+    cbn [clone_without_body used body mk app]. fold (listing_gq out).
+    apply gq_body_only. now apply existsb_false_forall.
+  - unfold Counted. rewrite Forall_forall. intros j Hj.
+    assert (Hin : In j (to_instructions e0) \/ In j (to_instructions p)).
+    { apply in_listing_set_defs_sub with (p := e3) in Hj; [|intros x; apply keep_sub].
+      apply in_listing_set_defs_sub with (p := e2) in Hj; [|intros x; apply keep_sub].
+      rewrite in_to_instructions in Hj. destruct Hj as [[kd Hj]|Hj].
+      - unfold e2 in Hj. rewrite defs_set_defs in Hj. destruct (kind_eqb_spec kd KFrame) as [E|Hne]; [subst kd|].
+        + right. apply in_to_instructions. left. exists KFrame. apply in_vals in Hj. destruct Hj as [k Hj].
+          apply in_vals. exists k. now apply keep_sub in Hj.
+        + left. unfold e1 in Hj. rewrite !defs_set_defs in Hj.
+          destruct (kind_eqb kd KCal); [destruct Hj|]. destruct (kind_eqb kd KMCal); [destruct Hj|].
+          apply in_to_instructions. left. now exists kd.
+      - left. apply in_to_instructions. now right. }
+    unfold Counted in Hc, Hc0. rewrite Forall_forall in Hc, Hc0. destruct Hin; auto.
+Qed.
+
+Lemma Good_wrap_in_loop p n h f :
+  Good p -> hits p (OWrapInLoop n h f) = [] -> Good (wrap_in_loop p n h f).
+Proof.
+  intros Hg Hh. pose proof Hg as [Hw [_ Hc]]. unfold wrap_in_loop. cbn [hits] in Hh.
+  destruct n as [|[q|q|]].
+  - now apply Good_clone.
+  - apply app_eq_nil in Hh. destruct Hh as [Hr Hh]. apply Good_add_instructions; [now apply Good_clone | exact Hh].
+  - apply app_eq_nil in Hh. destruct Hh as [Hr Hh]. apply Good_add_instructions; [now apply Good_clone | exact Hh].
+  - exact Hg.
+Qed.
+
+(** ** Every step outside the known classes preserves the invariant *)
+
+Theorem Good_step p o : Good p -> hits p o = [] -> Good (step p o).
+Proof.
+  intros Hg Hh. destruct o; cbn [step]; cbn [hits] in Hh.
+  - change (add_instruction p i) with (add_instructions p [i]). now apply Good_add_instructions.
+  - now apply Good_add_instructions.
+  - apply app_eq_nil in Hh. destruct Hh as [H1 H2]. change (add_assign p (from_instructions is)) with (add p (from_instructions is)).
+    apply Good_add; [exact Hg | | exact H2]. apply Good_add_instructions; [apply Good_empty | exact H1].
+  - apply Good_add; [exact Hg | exact Hg | apply stale_concat_self; apply Hg].
+  - destruct Hg as [Hw [_ Hc]]. now apply Good_clone.
+  - now apply Good_resolve.
+  - apply app_eq_nil in Hh. destruct Hh as [H1 H2]. now apply Good_expand_calibrations.
+  - apply app_eq_nil in Hh. destruct Hh as [H1 H2]. now apply Good_expand_sequences.
+  - apply app_eq_nil in Hh. destruct Hh as [H1 H2].
+    apply Good_simplify; [exact Hg | exact H1|].
+    destruct (existsb _ out); [discriminate | reflexivity].
+  - now apply Good_wrap_in_loop.
+  - now apply Good_roundtrip.
+  - rewrite into_is_to. now apply Good_roundtrip.
+Qed.
+
+Lemma Good_run_from ops : forall p, Good p -> all_hits_from p ops = [] -> Good (fold_left step ops p).
+Proof.
+  induction ops as [|o t IH]; intros p Hg Hh; [exact Hg|].
+  cbn [all_hits_from] in Hh. apply app_eq_nil in Hh. destruct Hh as [H1 H2].
+  cbn [fold_left]. apply IH; [now apply Good_step | exact H2].
+Qed.
+
+Theorem Good_run ops : all_hits ops = [] -> Good (run ops).
+Proof. intros H. apply Good_run_from; [apply Good_empty | exact H]. Qed.
+
+(** equality: programs with the same listing are equal field by field *)
+Theorem same_listing_equiv p q :
+  WF p -> WF q -> InvG p -> InvG q -> to_instructions p = to_instructions q -> prog_equiv p q.
+Proof.
+  intros Hp Hq Hip Hiq He. split; [|split].
+  - intros kd. rewrite <- (sel_to_instructions kd p Hp), <- (sel_to_instructions kd q Hq). now rewrite He.
+  - rewrite <- (body_part_to_instructions p Hp), <- (body_part_to_instructions q Hq). now rewrite He.
+  - eapply seteq_trans; [exact Hip|]. rewrite He. now apply seteq_sym.
+Qed.
+
+Lemma inv_b_Inv p : inv_b p = true <-> Inv p.
+Proof. unfold inv_b, Inv. apply seteqb_seteq. Qed.
+
+Lemma chk_cache_sound o : chk_cache o = true -> seteq (snd o) (listing_qubits (fst o)).
+Proof. unfold chk_cache. apply seteqb_seteq. Qed.
+
+Theorem inv_run ops : all_hits ops = [] -> Inv (run ops).
+Proof. intros H. apply Good_Inv. now apply Good_run. Qed.
+
+Theorem equal_run ops1 ops2 :
+  all_hits ops1 = [] -> all_hits ops2 = [] ->
+  to_instructions (run ops1) = to_instructions (run ops2) ->
+  prog_equiv (run ops1) (run ops2) /\ prog_eqb (run ops1) (run ops2) = true.
+Proof.
+  intros H1 H2 He. pose proof (Good_run ops1 H1) as [Hw1 [Hi1 _]].
+  pose proof (Good_run ops2 H2) as [Hw2 [Hi2 _]].
+  assert (Hq : prog_equiv (run ops1) (run ops2)) by now apply same_listing_equiv.
+  split; [exact Hq | now apply prog_equiv_eqb].
+Qed.
+
+Lemma Good_rebuild_used p : WF p -> Counted p -> Good (rebuild_used p).
+Proof.
+  intros Hw Hc. split; [|split].
+  - split; [intros kd; unfold rebuild_used; rewrite defs_set_used; apply Hw | apply Hw].
+  - unfold InvG, rebuild_used. rewrite to_instructions_set_used. cbn [set_used used mk]. apply seteq_refl.
+  - unfold Counted, rebuild_used. now rewrite to_instructions_set_used.
+Qed.
+
+Theorem rebuild_restores p :
+  WF p -> Counted p -> Inv (resolve_placeholders p) /\ Inv (from_instructions (to_instructions p)).
+Proof.
+  intros Hw Hc. split.
+  - apply Good_Inv. exact (Good_resolve (rebuild_used p) (Good_rebuild_used p Hw Hc)).
+  - apply Good_Inv. split; [apply WF_from_instructions|]. split.
+    + unfold InvG. rewrite used_roundtrip, listing_roundtrip by exact Hw. apply seteq_refl.
+    + unfold Counted. now rewrite listing_roundtrip.
+Qed.
+
+Lemma not_inv_of_inv_b p : inv_b p = false -> ~ Inv p.
+Proof. intros H Hi. apply inv_b_Inv in Hi. congruence. Qed.
